@@ -76,7 +76,7 @@ def judge_value(module: str, name: str, value: Any, rec: Recorder | None = None)
         rec.case({"m": site, "t": rt.text}, nontrivial=rt.status == "ok" and rc.tree_depth(value) >= 3,
             labels=["catalogue"],
             sample={"member": site, "rendering": rt.text} if rt.status == "ok" and len(rec.samples) < 3 else None)
-    if rt.status in ("mismatch", "crash", "internal-name", "malformed"):
+    if rt.status in ("mismatch", "crash", "internal-name", "malformed", "foreign-symbol"):
         return [(f"{rt.status}:{site}", f"{MODE} rendering {rt.text!r} of {site}: {rt.detail}")]
     return []
 
